@@ -61,7 +61,7 @@ type CanaryNodesIssue struct{ Sig, Msg string }
 // CheckCanaryNodes judges status.canary.nodes after an R_eds (pre = state read, post = state after).
 func CheckCanaryNodes(pre, post *State, reconcileErr error, ns, name string) (issues []CanaryNodesIssue, active bool) {
 	e0, e1 := pre.EDS(ns, name), post.EDS(ns, name)
-	if e0 == nil || e1 == nil || e1.Spec.Strategy.Canary == nil || e1.Status.Canary == nil {
+	if e0 == nil || e1 == nil || e1.Spec.Strategy.Canary == nil || e0.Spec.Strategy.Canary == nil {
 		return nil, false
 	}
 	up := UpToDateRS(pre, e0)
@@ -70,6 +70,33 @@ func CheckCanaryNodes(pre, post *State, reconcileErr error, ns, name string) (is
 	}
 	add := func(sig, msg string) { issues = append(issues, CanaryNodesIssue{sig, msg}) }
 	cs := e0.Spec.Strategy.Canary
+	if reconcileErr != nil && strings.Contains(reconcileErr.Error(), "enough") {
+		// "if fewer valid nodes exist the reconcile reports an error": a shortage must not be reported when enough valid
+		// nodes exist (spreading over the anti-affinity values is a preference, the count is the requirement)
+		nValid, nTargeted := 0, 0
+		usable := true
+		for _, n := range pre.Nodes() {
+			el := Eligible(n, &up.Spec.Template)
+			if el {
+				nTargeted++
+			}
+			m, u := selectorMatches(cs.NodeSelector, n.Labels)
+			if !u {
+				usable = false
+			}
+			if el && m {
+				nValid++
+			}
+		}
+		want, ok := Resolve(cs.Replicas, nTargeted)
+		wantAlt, _ := Resolve(cs.Replicas, int(e0.Status.Desired))
+		if usable && ok && nValid >= want && nValid >= wantAlt {
+			add("C15/shortage: a shortage of canary nodes is reported although enough valid nodes exist", fmt.Sprintf("%d valid nodes, %d requested (anti-affinity keys %v): %v", nValid, want, cs.NodeAntiAffinityKeys, reconcileErr))
+		}
+	}
+	if e1.Status.Canary == nil {
+		return issues, false
+	}
 	valid := map[string]bool{}
 	restarts := map[string]int{}
 	targeted := 0
